@@ -33,24 +33,34 @@ impl Scenario {
     }
 }
 
-fn scenarios(tier: &str) -> Vec<Scenario> {
+fn scenarios(tier: &str, prop: &str) -> Vec<Scenario> {
+    let sc = |p: &str, r: &str, m: &str| Scenario { pattern: p.to_string(), role: r.to_string(), mode: m.to_string() };
+    if tier != "thorough" {
+        // quick: a subset that finishes well inside a minute; every pattern and both modes appear
+        return if prop == "C07" {
+            vec![sc("pubsub", "A", "shared"), sc("event", "A", "shared"), sc("reqres", "B", "shared")]
+        } else {
+            vec![
+                sc("pubsub", "A", "shared"),
+                sc("pubsub", "B", "shared"),
+                sc("event", "B", "shared"),
+                sc("reqres", "A", "shared"),
+                sc("blackboard", "A", "shared"),
+                sc("pubsub", "A", "solo"),
+            ]
+        };
+    }
     let mut v = Vec::new();
-    let pats: &[&str] = if tier == "thorough" { &["pubsub", "event", "reqres", "blackboard"] } else { &["pubsub", "event", "reqres", "blackboard"] };
-    for p in pats {
+    for p in ["pubsub", "event", "reqres", "blackboard"] {
         for r in ["A", "B"] {
-            v.push(Scenario { pattern: p.to_string(), role: r.to_string(), mode: "shared".into() });
+            v.push(sc(p, r, "shared"));
         }
     }
     // the victim as the only user of the service
-    v.push(Scenario { pattern: "pubsub".into(), role: "A".into(), mode: "solo".into() });
-    v.push(Scenario { pattern: "event".into(), role: "B".into(), mode: "solo".into() });
-    if tier == "thorough" {
-        v.push(Scenario { pattern: "pubsub".into(), role: "B".into(), mode: "solo".into() });
-        v.push(Scenario { pattern: "event".into(), role: "A".into(), mode: "solo".into() });
-        v.push(Scenario { pattern: "reqres".into(), role: "A".into(), mode: "solo".into() });
-        v.push(Scenario { pattern: "reqres".into(), role: "B".into(), mode: "solo".into() });
-        v.push(Scenario { pattern: "blackboard".into(), role: "A".into(), mode: "solo".into() });
-        v.push(Scenario { pattern: "blackboard".into(), role: "B".into(), mode: "solo".into() });
+    for p in ["pubsub", "event", "reqres", "blackboard"] {
+        for r in ["A", "B"] {
+            v.push(sc(p, r, "solo"));
+        }
     }
     v
 }
@@ -554,6 +564,201 @@ fn run_point(s: &Scenario, k: Option<usize>, expect_shape: Option<&str>, prop: &
 
 const PHASES: [&str; 8] = ["node-create", "service-open-or-create", "port-create", "traffic", "port-drop", "service-drop", "node-drop", "done"];
 
+
+// ---------------------------------------------------------------------------------------
+// C07 cleaner leg: two cleaners race for one dead node (all single-preemption interleavings at
+// system-call granularity), and a cleaner that dies itself at every point of its cleanup
+
+fn run_untraced(name: &str, args: &[String], timeout: Duration) -> Result<String, String> {
+    let mut child = Command::new(exe(name))
+        .args(args)
+        .stdin(Stdio::null())
+        .stdout(Stdio::piped())
+        .stderr(Stdio::null())
+        .spawn()
+        .map_err(|e| format!("{e}"))?;
+    let t0 = Instant::now();
+    loop {
+        match child.try_wait() {
+            Ok(Some(_)) => break,
+            _ => {}
+        }
+        if t0.elapsed() > timeout {
+            let _ = child.kill();
+            let _ = child.wait();
+            return Err("timeout".into());
+        }
+        std::thread::sleep(Duration::from_millis(3));
+    }
+    let mut out = String::new();
+    if let Some(mut o) = child.stdout.take() {
+        let _ = o.read_to_string(&mut out);
+    }
+    Ok(out)
+}
+
+/// a victim that is completely set up (node, service, port, traffic) and then killed
+fn make_dead_victim(s: &Scenario, d: &Domain) -> Result<(), String> {
+    let args = scn_args(s, d);
+    let mut victim = Traced::spawn(&exe("crash_child"), &args);
+    loop {
+        match victim.run_to_next_visible(d) {
+            Stop::AtCall(_, _) => {
+                if victim.phase >= 4 {
+                    victim.kill();
+                    return Ok(());
+                }
+            }
+            Stop::Exited(c) => return Err(format!("victim exited ({c}) before it was set up")),
+        }
+    }
+}
+
+fn clean_ok_count(out: &str) -> usize {
+    out.lines().filter(|l| l.trim() == "CLEAN ok").count()
+}
+
+fn refusals(out: &str) -> Vec<String> {
+    out.lines().filter_map(|l| l.trim().strip_prefix("CLEAN ")).filter(|r| *r != "ok").map(|r| r.to_string()).collect()
+}
+
+fn done_field(out: &str, key: &str) -> Option<u64> {
+    out.lines().find(|l| l.starts_with("CLEANER-DONE"))?.split_whitespace().find_map(|t| t.strip_prefix(key).and_then(|v| v.parse().ok()))
+}
+
+/// cleaner A is stopped before its visible call `k`; cleaner B runs to completion meanwhile; then
+/// A continues (`kill_a == false`) or is killed and a third cleaner C runs (`kill_a == true`)
+fn cleaner_point(s: &Scenario, k: Option<usize>, kill_a: bool, expect_shape: Option<&str>) -> Result<(PointResult, Vec<Sys>), String> {
+    let t0 = Instant::now();
+    let d = new_domain();
+    let args = scn_args(s, &d);
+    let variant = if kill_a { "cleaner-dies" } else { "two-cleaners" };
+    let mut res = PointResult { scenario: format!("{variant}({})", s.name()), k: k.unwrap_or(usize::MAX), phase: "cleanup".into(), ..Default::default() };
+    if let Err(e) = make_dead_victim(s, &d) {
+        remove_domain(&d);
+        return Err(e);
+    }
+    let mut a = Traced::spawn(&exe("crash_cleaner"), &args);
+    let mut a_done = false;
+    loop {
+        match a.run_to_next_visible(&d) {
+            Stop::AtCall(i, sys) => {
+                if Some(i) == k {
+                    res.shape = sys.shape.clone();
+                    res.ordinal = a.log.iter().filter(|x| x.shape == sys.shape).count();
+                    if let Some(e) = expect_shape {
+                        if e != sys.shape {
+                            a.kill();
+                            remove_domain(&d);
+                            return Err(format!("divergence: cleaner call {i} is {:?}, recorded run had {:?}", sys.shape, e));
+                        }
+                    }
+                    break;
+                }
+            }
+            Stop::Exited(_) => {
+                a_done = true;
+                break;
+            }
+        }
+    }
+    if k.is_some() && a_done {
+        remove_domain(&d);
+        return Err(format!("divergence: cleaner finished before visible call {}", k.unwrap()));
+    }
+    let mut oks = 0;
+    let mut all_refusals: Vec<String> = Vec::new();
+    if !a_done {
+        // B runs while A is stopped in the middle of its cleanup
+        match run_untraced("crash_cleaner", &args, Duration::from_secs(15)) {
+            Ok(out) => {
+                oks += clean_ok_count(&out);
+                all_refusals.extend(refusals(&out));
+                res.notes.push(format!("B: {}", out.trim().replace('\n', " | ")));
+            }
+            Err(e) => res.problems.push(format!("c07-cleaner-hang: second cleaner: {e}")),
+        }
+        if kill_a {
+            a.kill();
+            match run_untraced("crash_cleaner", &args, Duration::from_secs(15)) {
+                Ok(out) => {
+                    oks += clean_ok_count(&out);
+                    all_refusals.extend(refusals(&out));
+                    res.notes.push(format!("C: {}", out.trim().replace('\n', " | ")));
+                }
+                Err(e) => res.problems.push(format!("c07-cleaner-hang: third cleaner: {e}")),
+            }
+        } else {
+            loop {
+                match a.run_to_next_visible(&d) {
+                    Stop::AtCall(_, _) => {}
+                    Stop::Exited(code) => {
+                        if code != 0 {
+                            res.problems.push(format!("c07-cleaner-crashed: the interrupted cleaner exited with {code}"));
+                        }
+                        break;
+                    }
+                }
+            }
+        }
+    }
+    if !kill_a || a_done {
+        let out = a.stdout();
+        oks += clean_ok_count(&out);
+        all_refusals.extend(refusals(&out));
+        res.notes.push(format!("A: {}", out.trim().replace('\n', " | ")));
+    }
+    // final look: nothing may be left to clean, and nothing may be left behind
+    match run_untraced("crash_cleaner", &args, Duration::from_secs(15)) {
+        Ok(out) => {
+            let dead = done_field(&out, "dead=").unwrap_or(99);
+            let alive = done_field(&out, "alive=").unwrap_or(99);
+            if dead != 0 || alive != 0 {
+                res.problems.push(format!(
+                    "c07-uncollected-after-cleaners: after all cleaners finished a further look still finds dead={dead} alive={alive} ({})",
+                    if kill_a { "one cleaner was killed in the middle of its cleanup" } else { "two cleaners ran concurrently" }
+                ));
+            }
+        }
+        Err(e) => res.problems.push(format!("c07-cleaner-hang: final look: {e}")),
+    }
+    if !kill_a && oks > 1 {
+        res.problems.push(format!("c07-cleanup-not-exclusive: {oks} cleaners report a successful cleanup of the same dead node"));
+    }
+    for r in &all_refusals {
+        let documented = ["AnotherInstanceIsCleaningUpTheNode", "ResourcesAlreadyCleanedUp"];
+        if !documented.contains(&r.as_str()) {
+            res.problems.push(format!("c07-cleaner-refusal-undocumented: a competing cleaner was refused with {r}"));
+        }
+    }
+    res.leftovers = leftovers(&d);
+    if !res.leftovers.is_empty() {
+        res.problems.push(format!("c07-leftover-after-cleaners: {}", res.leftovers.join(", ")));
+    }
+    remove_domain(&d);
+    res.wall_ms = t0.elapsed().as_millis() as u64;
+    Ok((res, a.log.clone()))
+}
+
+/// `two-cleaners(pubsub-A-shared)` -> ("two-cleaners", scenario) ; plain scenario names -> ("kill", scenario)
+fn split_leg(label: &str) -> (String, Scenario) {
+    let (leg, name) = match label.split_once('(') {
+        Some((l, rest)) => (l.to_string(), rest.trim_end_matches(')').to_string()),
+        None => ("kill".to_string(), label.to_string()),
+    };
+    let parts: Vec<&str> = name.split('-').collect();
+    (leg, Scenario { pattern: parts[0].to_string(), role: parts[1].to_string(), mode: parts[2].to_string() })
+}
+
+fn rerun(label: &str, k: Option<usize>, prop: &str) -> Result<(PointResult, Vec<Sys>), String> {
+    let (leg, scn) = split_leg(label);
+    match leg.as_str() {
+        "two-cleaners" => cleaner_point(&scn, k, false, None),
+        "cleaner-dies" => cleaner_point(&scn, k, true, None),
+        _ => run_point(&scn, k, None, prop),
+    }
+}
+
 fn tag_of(problem: &str) -> String {
     problem.split(':').next().unwrap_or("").trim().to_string()
 }
@@ -615,7 +820,7 @@ fn main() {
     }
     let t0 = Instant::now();
     let mut machinery: Vec<String> = Vec::new();
-    let scns: Vec<Scenario> = scenarios(&tier).into_iter().filter(|s| only.as_ref().map(|o| s.name().contains(o.as_str())).unwrap_or(true)).collect();
+    let scns: Vec<Scenario> = scenarios(&tier, &prop).into_iter().filter(|s| only.as_ref().map(|o| s.name().contains(o.as_str())).unwrap_or(true)).collect();
     // 1. recording runs (also the no-crash baseline: must be clean)
     let mut work: Vec<(Scenario, usize, String)> = Vec::new();
     let mut results: Vec<PointResult> = Vec::new();
@@ -635,6 +840,33 @@ fn main() {
             Err(e) => machinery.push(format!("recording run of {} failed: {e}", s.name())),
         }
     }
+    // 1b. C07: cleaner leg (recording run of a lone cleaner = baseline, then every call of it)
+    let mut cleaner_work: Vec<(Scenario, usize, String, bool)> = Vec::new();
+    if prop == "C07" {
+        let cs = Scenario { pattern: "pubsub".into(), role: "A".into(), mode: "shared".into() };
+        let cs2 = Scenario { pattern: "reqres".into(), role: "B".into(), mode: "shared".into() };
+        let cleaner_scns = if tier == "thorough" { vec![cs, cs2] } else { vec![cs] };
+        for s in cleaner_scns {
+            if only.as_ref().map(|o| !format!("cleaners-{}", s.name()).contains(o.as_str())).unwrap_or(false) {
+                continue;
+            }
+            match cleaner_point(&s, None, false, None) {
+                Ok((r, log)) => {
+                    rows.push(json!({"scenario": format!("cleaners({})", s.name()), "visible_calls_of_a_cleaner": log.len(), "baseline_problems": r.problems}));
+                    if !r.problems.is_empty() {
+                        machinery.push(format!("baseline of the cleaner leg ({}) is not clean: {:?}", s.name(), r.problems));
+                    }
+                    for (k, sys) in log.iter().enumerate() {
+                        cleaner_work.push((s.clone(), k, sys.shape.clone(), false));
+                        cleaner_work.push((s.clone(), k, sys.shape.clone(), true));
+                    }
+                    results.push(r);
+                }
+                Err(e) => machinery.push(format!("recording run of the cleaner leg failed: {e}")),
+            }
+        }
+    }
+    let cleaner_work = Arc::new(cleaner_work);
     // 2. every kill point
     let next = Arc::new(AtomicUsize::new(0));
     let work = Arc::new(work);
@@ -642,14 +874,20 @@ fn main() {
     let deadline = Instant::now() + Duration::from_secs(if tier == "thorough" { 1500 } else { 50 });
     let mut hs = Vec::new();
     for _ in 0..jobs {
-        let (next, work, collected, prop) = (next.clone(), work.clone(), collected.clone(), prop.clone());
+        let (next, work, collected, prop, cleaner_work) = (next.clone(), work.clone(), collected.clone(), prop.clone(), cleaner_work.clone());
         hs.push(std::thread::spawn(move || loop {
             let i = next.fetch_add(1, Ordering::SeqCst);
-            if i >= work.len() || Instant::now() > deadline {
+            if i >= work.len() + cleaner_work.len() || Instant::now() > deadline {
                 break;
             }
-            let (s, k, shape) = &work[i];
-            let r = run_point(s, Some(*k), Some(shape), &prop).map(|(r, _)| r);
+            // the cleaner leg is interleaved with the kill points so that a time cap cuts both evenly
+            let r = if i < cleaner_work.len() {
+                let (s, k, shape, kill) = &cleaner_work[i];
+                cleaner_point(s, Some(*k), *kill, Some(shape)).map(|(r, _)| r)
+            } else {
+                let (s, k, shape) = &work[i - cleaner_work.len()];
+                run_point(s, Some(*k), Some(shape), &prop).map(|(r, _)| r)
+            };
             collected.lock().unwrap().push(r);
         }));
     }
@@ -657,7 +895,7 @@ fn main() {
         let _ = h.join();
     }
     let done = collected.lock().unwrap().len();
-    let complete = done == work.len();
+    let complete = done == work.len() + cleaner_work.len();
     for r in collected.lock().unwrap().drain(..) {
         match r {
             Ok(r) => results.push(r),
@@ -691,8 +929,7 @@ fn main() {
             }
             n += 1;
         };
-        let scn = scns.iter().find(|s| s.name() == r.scenario).unwrap();
-        let rf = json!({"engine": "ptx", "harness": "ptx", "property": prop, "scenario": scn, "kill_before_visible_call": r.k,
+        let rf = json!({"engine": "ptx", "harness": "ptx", "property": prop, "scenario": r.scenario, "kill_before_visible_call": r.k,
             "call": r.shape, "ordinal_of_that_call_shape": r.ordinal, "victim_phase": r.phase, "problems": r.problems, "signature": sig,
             "witness_points": rs.iter().map(|r| format!("{}#{}", r.scenario, r.k)).collect::<Vec<_>>() });
         std::fs::write(&path, serde_json::to_vec_pretty(&rf).unwrap()).unwrap();
@@ -703,7 +940,7 @@ fn main() {
                 break;
             }
             let k = if r.k == usize::MAX { None } else { Some(r.k) };
-            if let Ok((again, _)) = run_point(scn, k, None, &prop) {
+            if let Ok((again, _)) = rerun(&r.scenario, k, &prop) {
                 if !again.problems.is_empty() && again.problems.iter().all(|p| sig.contains(p.as_str())) {
                     ok += 1;
                 }
@@ -731,7 +968,7 @@ fn main() {
         "distinct_nontrivial": shapes.len(),
         "scenarios": rows,
         "exhaustive": complete && machinery.is_empty(),
-        "kill_points_planned": work.len() + scns.len(),
+        "kill_points_planned": work.len() + scns.len(), "cleaner_points_planned": cleaner_work.len(),
         "samples": samples,
         "violations": violations,
         "machinery_errors": machinery,
@@ -756,11 +993,11 @@ fn main() {
 
 fn replay_main(p: &PathBuf, prop: &str) -> i32 {
     let v: Value = serde_json::from_slice(&std::fs::read(p).expect("replay file")).expect("json");
-    let scn: Scenario = serde_json::from_value(v["scenario"].clone()).expect("scenario");
+    let label = v["scenario"].as_str().expect("scenario").to_string();
     let k = v["kill_before_visible_call"].as_u64().map(|k| k as usize).filter(|k| *k != usize::MAX);
-    match run_point(&scn, k, None, prop) {
+    match rerun(&label, k, prop) {
         Ok((r, log)) => {
-            println!("scenario {} – visible calls of the victim up to the kill point:", scn.name());
+            println!("scenario {label} – visible calls of the traced process up to the stop point:");
             for (i, s) in log.iter().enumerate() {
                 println!("  #{i} {}", s.shape);
             }
